@@ -131,7 +131,10 @@ def _make_distribution(outcomes, pmf, base,
 
     ## Set the outcome class, ctor, and product function.
     ## Assumption: the class of each outcome is the same.
-    klass = outcomes[0].__class__
+    if isinstance(sample_space, SampleSpace):
+        klass = sample_space._outcome_class
+    else:
+        klass = outcomes[0].__class__
     d._outcome_class = klass
     d._outcome_ctor = get_outcome_ctor(klass)
     d._product = get_product_func(klass)
@@ -144,7 +147,13 @@ def _make_distribution(outcomes, pmf, base,
     d._outcomes_index = dict(zip(outcomes, range(len(outcomes))))
 
     # Alphabet
-    d.alphabet = tuple(construct_alphabets(outcomes))
+    # The alphabets are those of the sample space, not of the stored outcomes.
+    if isinstance(sample_space, CartesianProduct):
+        d.alphabet = tuple(sample_space.alphabets)
+    elif isinstance(sample_space, SampleSpace):
+        d.alphabet = tuple(construct_alphabets(sample_space._samplespace))
+    else:
+        d.alphabet = tuple(construct_alphabets(outcomes))
 
     # Sample space.
     if sample_space is None:
@@ -1143,6 +1152,7 @@ class Distribution(ScalarDistribution):
         # The following are not initialize-able from the constructor.
         d.set_rv_names(self.get_rv_names())
         d._mask = tuple(self._mask)
+        d.alphabet = tuple(self.alphabet)
 
         return d
 
